@@ -253,4 +253,168 @@ theorem ls_ratio_clamp {len : Len} (hl : LenAx len) (cs : List Pt) (r : Rat) :
   exact ⟨fun h => (ls_distance_clamp_lo len cs _ (by nlinarith)).1,
     fun h => ls_distance_clamp_hi hl cs _ (by nlinarith)⟩
 
+/-! ### locate inverts interpolate (Line) -/
+
+private theorem clamp01_eq (t : Rat) : clamp01 t = if t ≤ 0 then 0 else if 1 ≤ t then 1 else t := by
+  unfold clamp01 rmin rmax
+  by_cases h0 : t ≤ 0
+  · simp [h0]
+  · have h0' : 0 < t := not_le.1 h0
+    by_cases h1 : 1 ≤ t
+    · by_cases h2 : t ≤ 1
+      · have : t = 1 := le_antisymm h2 h1
+        subst this; simp
+      · simp [h0, h1, h2]
+    · have h2 : t ≤ 1 := le_of_lt (not_le.1 h1)
+      simp [h0, h1, h2]
+
+private theorem sq_sum_ne_zero {a b : Pt} (h : a ≠ b) :
+    (b.x - a.x) * (b.x - a.x) + (b.y - a.y) * (b.y - a.y) ≠ 0 := by
+  intro h0
+  apply h
+  have hx : b.x - a.x = 0 := by nlinarith [mul_self_nonneg (b.x - a.x), mul_self_nonneg (b.y - a.y)]
+  have hy : b.y - a.y = 0 := by nlinarith [mul_self_nonneg (b.x - a.x), mul_self_nonneg (b.y - a.y)]
+  apply Pt.ext' <;> linarith
+
+/-- [T] on a non-degenerate Line the projection parameter of `lerp a b t` is `t` clamped. -/
+theorem locate_lerp (a b : Pt) (h : a ≠ b) (t : Rat) : lineLocatePoint a b (lerp a b t) = clamp01 t := by
+  have hv := sq_sum_ne_zero h
+  unfold lineLocatePoint
+  simp only [lerp]
+  rw [if_neg hv]
+  congr 1
+  rw [div_eq_iff hv]
+  ring
+
+/-- [T] `locate_interpolate_line`: for a non-degenerate `Line`, `line_locate_point` maps
+`point_at_ratio_from_start(line, r)` back to `r` clamped to `[0,1]` — for every `r`. -/
+theorem locate_interpolate_line (a b : Pt) (h : a ≠ b) (r : Rat) :
+    lineLocatePoint a b (linePointAtRatioFromStart a b r) = clamp01 r := by
+  have e : linePointAtRatioFromStart a b r = lerp a b (clamp01 r) := by
+    rw [clamp01_eq]; unfold linePointAtRatioFromStart
+    by_cases h0 : r ≤ 0
+    · simp [h0, lerp_zero]
+    · by_cases h1 : 1 ≤ r
+      · simp [h0, h1, lerp_one]
+      · simp [h0, h1]
+  rw [e, locate_lerp a b h]
+  rw [clamp01_eq (clamp01 r), clamp01_eq r]
+  by_cases h0 : r ≤ 0
+  · simp [h0]
+  · by_cases h1 : 1 ≤ r
+    · simp [h0, h1]
+    · simp [h0, h1]
+
+/-- [T] a zero-length Line locates every point at 0 (no division). -/
+theorem locate_degenerate (a p : Pt) : lineLocatePoint a a p = 0 := by
+  simp [lineLocatePoint]
+
+example : lineLocatePoint ⟨0, 0⟩ ⟨3, 4⟩ (linePointAtRatioFromStart ⟨0, 0⟩ ⟨3, 4⟩ (1 / 4)) = 1 / 4 := by
+  rw [locate_interpolate_line _ _ (by decide)]; rw [clamp01_eq]; norm_num
+
+/-! ### densify -/
+
+/-- [T] the `i`-th inserted point of `densify_between` is the `lerp` point of parameter
+`(i+1)/n`, `n = ⌈d/max⌉`, and there are exactly `n − 1` of them: only points of the original
+segment are inserted, with strictly increasing parameter in `(0,1)`. -/
+theorem densify_between_get (len : Len) (a b : Pt) (mx : Rat) (i : Nat) :
+    (densifyBetween len a b mx)[i]? =
+      if i + 1 < numSegments len a b mx
+      then some (lerp a b (((i + 1 : Nat) : Rat) / (numSegments len a b mx : Rat))) else none := by
+  unfold densifyBetween
+  simp only [List.getElem?_map]
+  by_cases h : i + 1 < numSegments len a b mx
+  · have h' : i < numSegments len a b mx - 1 := by omega
+    rw [List.getElem?_range' h', if_pos h]
+    simp only [Option.map_some]
+    congr 2
+    push_cast
+    ring
+  · have h' : numSegments len a b mx - 1 ≤ i := by omega
+    rw [if_neg h, List.getElem?_eq_none (by simpa using h')]
+    rfl
+
+/-- [T] the `ceil` lemma: with `n = ⌈d/max⌉` pieces (`d > 0`, `max > 0`) each piece has length
+`d/n ≤ max`, and `n` is the least such count (`n − 1` pieces would be longer than `max`). -/
+theorem densify_piece_bound {len : Len} (hl : LenAx len) (a b : Pt) (mx : Rat) (hmx : 0 < mx)
+    (hpos : 0 < len a b) :
+    0 < numSegments len a b mx ∧ len a b / (numSegments len a b mx : Rat) ≤ mx ∧
+      ((numSegments len a b mx : Rat) - 1) * mx < len a b := by
+  obtain ⟨h1, h2⟩ := numSegments_cast hl a b mx hmx
+  have hq : 0 < len a b / mx := div_pos hpos hmx
+  have hn : (0 : Rat) < (numSegments len a b mx : Rat) := lt_of_lt_of_le hq h1
+  refine ⟨by exact_mod_cast hn, ?_, ?_⟩
+  · rw [div_le_iff₀ hn]
+    rw [div_le_iff₀ hmx] at h1
+    linarith
+  · have : (numSegments len a b mx : Rat) - 1 < len a b / mx := by linarith
+    rw [lt_div_iff₀ hmx] at this
+    exact this
+
+/-- [T] a zero-length segment gets no inserted points (`d = 0 ⇒ n = 0`, nothing divided). -/
+theorem densify_between_zero (len : Len) (a b : Pt) (mx : Rat) (h : len a b = 0) :
+    densifyBetween len a b mx = [] := by
+  have : Rat.ceil (0 : Rat) = 0 := by simpa using Rat.ceil_intCast 0
+  simp [densifyBetween, numSegments, h, this]
+
+/-- [T] a segment no longer than `max` gets no inserted points. -/
+theorem densify_between_short {len : Len} (hl : LenAx len) (a b : Pt) (mx : Rat) (hmx : 0 < mx)
+    (h : len a b ≤ mx) : densifyBetween len a b mx = [] := by
+  obtain ⟨_, h2⟩ := numSegments_cast hl a b mx hmx
+  have : len a b / mx ≤ 1 := by rw [div_le_iff₀ hmx]; linarith
+  have hn : (numSegments len a b mx : Rat) < 2 := by linarith
+  have hn' : numSegments len a b mx < 2 := by exact_mod_cast hn
+  have : numSegments len a b mx - 1 = 0 := by omega
+  simp [densifyBetween, this]
+
+private theorem densifyLS_cons2 (len : Len) (a b : Pt) (rest : List Pt) (mx : Rat) :
+    densifyLS len (a :: b :: rest) mx =
+      a :: (densifyBetween len a b mx ++ densifyLS len (b :: rest) mx) := by
+  unfold densifyLS
+  rw [List.getLast?_cons_cons]
+  cases h : (b :: rest).getLast? with
+  | none => simp at h
+  | some z => simp [segs, densifySegs]
+
+private theorem densifyLS_head (len : Len) (b : Pt) (rest : List Pt) (mx : Rat) :
+    ∃ Y, densifyLS len (b :: rest) mx = b :: Y := by
+  cases rest with
+  | nil => exact ⟨[], by simp [densifyLS, segs, densifySegs]⟩
+  | cons c rest => exact ⟨_, densifyLS_cons2 len b c rest mx⟩
+
+/-- [T] `densify_sublist`: every original vertex is kept, in order. -/
+theorem densify_sublist (len : Len) (mx : Rat) : ∀ cs : List Pt, cs.Sublist (densifyLS len cs mx)
+  | [] => by simp [densifyLS]
+  | [a] => by simp [densifyLS, segs, densifySegs]
+  | a :: b :: rest => by
+    rw [densifyLS_cons2]
+    exact List.Sublist.cons_cons a
+      (List.Sublist.trans (densify_sublist len mx (b :: rest)) (List.sublist_append_right _ _))
+
+/-- [T] first and last coordinate are unchanged, so a closed ring stays closed and
+`Polygon::new` adds nothing after densifying. -/
+theorem densify_ends (len : Len) (mx : Rat) : ∀ cs : List Pt,
+    (densifyLS len cs mx).head? = cs.head? ∧ (densifyLS len cs mx).getLast? = cs.getLast?
+  | [] => by simp [densifyLS]
+  | [a] => by simp [densifyLS, segs, densifySegs]
+  | a :: b :: rest => by
+    obtain ⟨Y, hY⟩ := densifyLS_head len b rest mx
+    have ih := (densify_ends len mx (b :: rest)).2
+    rw [densifyLS_cons2, hY]
+    refine ⟨rfl, ?_⟩
+    rw [hY] at ih
+    have e : a :: (densifyBetween len a b mx ++ b :: Y) = (a :: densifyBetween len a b mx) ++ (b :: Y) := rfl
+    rw [e, List.getLast?_append, ih, List.getLast?_cons_cons]
+    cases hlast : (b :: rest).getLast? with
+    | none => simp at hlast
+    | some z => rfl
+
+theorem densify_ring_closed (len : Len) (mx : Rat) (cs : List Pt) (h : SM.isClosed cs = true) :
+    SM.close (densifyLS len cs mx) = densifyLS len cs mx := by
+  have e := densify_ends len mx cs
+  have : SM.isClosed (densifyLS len cs mx) = true := by
+    unfold SM.isClosed at *
+    rw [e.1, e.2]; exact h
+  simp [SM.close, this]
+
 end Geo.Proofs.C15
